@@ -24,6 +24,7 @@ SIGN_TEST = {
     '__gt__': lambda s: s > 0,
     '__ge__': lambda s: s >= 0,
 }
+HOOKS = ('_get_ver', '_set_ver')  # the overridable access path documented in the class docstring
 _WRAPPERS = ('sorted', 'list', 'set', 'tuple', 'frozenset')
 
 
@@ -68,6 +69,8 @@ class _SignEval:
         self.signs = signs
         self.depth = 0
         self.steps = 0
+        self.stack = []  # names of the methods being evaluated
+        self.direct = []  # (method name, expression) of data-attribute reads outside the documented hook
 
     # ---- oracle
     def sign(self, x, y):
@@ -113,6 +116,8 @@ class _SignEval:
 
     def call_method(self, name, recv, args, kwargs=None):
         m = self.method(name)
+        if m is None and name == '__ne__' and len(args) == 1 and self.method('__eq__') is not None:
+            return not self.truth(self.call_method('__eq__', recv, args))  # object.__ne__ inverts __eq__
         if m is None:
             raise Unsupported(f'{self.cls.name}.{name} is not defined in the repository')
         params = m.params()
@@ -133,10 +138,12 @@ class _SignEval:
         self.depth += 1
         if self.depth > 24:
             raise Unsupported('comparison methods are defined in terms of each other without a base case')
+        self.stack.append(name)
         try:
             r = self.block(m.node.body, env)
         finally:
             self.depth -= 1
+            self.stack.pop()
         return r[1] if r is not None else None
 
     def compare_objs(self, op, x, y):
@@ -192,7 +199,11 @@ class _SignEval:
             if isinstance(base, tuple) and base[0] == 'obj':
                 if self.method(e.attr) is not None:
                     raise Unsupported(f'method {e.attr} used as a value')
-                return ('nt', base[1])  # the one data attribute of a Version: its VERSION tuple (class docstring)
+                # the one data attribute of a Version: its VERSION tuple (class docstring).  The documented extension point
+                # is _get_ver()/_set_ver(): a read anywhere else bypasses an implementer's override of the hook
+                if not self.stack or self.stack[-1] not in HOOKS:
+                    self.direct.append((self.stack[-1] if self.stack else '?', norm(e)))
+                return ('nt', base[1])
             if isinstance(base, tuple) and base[0] == 'nt':
                 if e.attr in self.fields:
                     return ('fld', base[1], self.sem[e.attr] if self.sem is not None else e.attr)
@@ -351,10 +362,19 @@ def _rule1(ctx, rep):
                 raise AnalysisError(f'anchor method {VERSION_CLS}.{an} not found')
             rep.analysed(m)
             try:
-                v = _SignEval(prog, cls, fields, None, (0, 0, 0)).call_method(an, ('obj', 'a'), [])
+                aev = _SignEval(prog, cls, fields, None, (0, 0, 0))
+                v = aev.call_method(an, ('obj', 'a'), [])
             except Unsupported as e:
                 r.fail(f'{m.qname}:accessor', where(m), f'accessor {an}() is not understood by the evaluator: {e}')
                 return
+            r.check(
+                not aev.direct,
+                f'{m.qname}:hook',
+                where(m),
+                f'{an}() obtains the version through _get_ver()',
+                f'{an}() reads {sorted({x for _m, x in aev.direct})} directly instead of going through _get_ver(), the documented '
+                'override point: an implementer overriding _get_ver() is ignored',
+            )
             if not (isinstance(v, tuple) and v[0] == 'fld' and v[1] == 'a') or v[2] in sem:
                 r.fail(f'{m.qname}:accessor', where(m), f'accessor {an}() does not return its own field of the VERSION tuple (got {v})')
                 return
@@ -377,14 +397,17 @@ def _rule1(ctx, rep):
                     r.fail(key, loc, f'{name} does not take exactly one other version')
                     continue
             bad = None
+            direct = set()
             try:
                 for t in triples:
                     ev = _SignEval(prog, cls, fields, sem, t)
+                    ev.direct = direct_log = []
                     if name in ops:
                         got = ev.truth(ev.compare_objs(ops[name](), ('obj', 'a'), other))
                     else:
                         got = ev.truth(ev.call_method(name, ('obj', 'a'), [other]))
                     evaluations += 1
+                    direct |= set(direct_log)
                     if got != expect(_lex(t)):
                         bad = (t, got)
                         break
@@ -400,6 +423,15 @@ def _rule1(ctx, rep):
                 if bad
                 else '',
             )
+            r.check(
+                not direct,
+                f'{cls.qname}.{name}:hook',
+                loc,
+                f'{name} reads the components of both versions only through design()/implementation()/bugfix()/_get_ver()',
+                f'{name} reads the version attribute directly ({", ".join(sorted(f"{x} in {mn}" for mn, x in direct))}) instead of through the '
+                'accessors / _get_ver(), the documented override point: for an implementer overriding _get_ver() this method orders a '
+                'different value than newer()/asstring() use, so the operators and newer() are no longer mutually consistent',
+            )
         r.extra['sign_triples'] = len(triples)
         r.extra['evaluations'] = evaluations
         r.extra['exhaustive'] = True
@@ -410,8 +442,11 @@ def _rule1(ctx, rep):
         rep.analysed(m)
         key = f'{m.qname}:injective'
         try:
-            v = _SignEval(prog, cls, fields, sem, (0, 0, 0)).call_method('asstring', ('obj', 'a'), [])
+            sev = _SignEval(prog, cls, fields, sem, (0, 0, 0))
+            v = sev.call_method('asstring', ('obj', 'a'), [])
             comps, ok = _string_components(v)
+            if sev.direct:
+                ok = False
         except Unsupported as e:
             r.fail(key, where(m), f'asstring() is outside the evaluated subset, injectivity not shown: {e}')
         else:
@@ -483,7 +518,8 @@ class _Err(Exception):
 SCENARIOS = (
     ('absent', 'name has no persisted version list', True),
     ('known', 'current version is in the persisted list of the name', False),
-    ('unknown', 'name is persisted but the current version is not in its list', True),
+    ('unknown', 'name is persisted with other versions only', True),
+    ('empty', 'name is persisted with an empty version list', True),
 )
 
 
@@ -509,9 +545,7 @@ class _DiffEval:
         if isinstance(v, tuple) and v[0] == 'int':
             return v[1] != 0
         if v == 'PL':
-            if self.scen == 'known':
-                return True  # contains the current version, so not empty
-            raise Unsupported('truth value of the persisted list (empty or not is not determined by the scenario)')
+            return self.scen != 'empty'
         if v in ('K', 'CV'):
             raise Unsupported('truth value of a name / version string')
         raise Unsupported(f'truth value of {v}')
@@ -529,7 +563,7 @@ class _DiffEval:
             if e.id in env:
                 v = env[e.id]
                 if v == 'UNK':
-                    raise Unsupported(f'value of local {e.id} is not understood')
+                    raise Unsupported(f'value of {e.id} is not understood (a local outside the subset, or a parameter that call sites set)')
                 return v
             if e.id == self.curr:
                 return 'CURR'
@@ -639,6 +673,10 @@ class _DiffEval:
             a = e.func.attr
             if a == 'keys' and recv in ('PREV', 'CURR') and not e.args:
                 return recv
+            if a in ('startswith', 'endswith') and recv in ('K', 'CV') and len(e.args) == 1 and not e.keywords:
+                if self.eval(e.args[0], env) == 'EMPTY':
+                    return False  # str.startswith(()) is constant False
+                raise Unsupported(f'{norm(e)} is a condition on the name itself, not on whether its version is persisted')
             if a == 'get' and recv in ('PREV', 'CURR') and 1 <= len(e.args) <= 2 and not e.keywords:
                 if self.eval(e.args[0], env) != 'K':
                     raise Unsupported(f'lookup of something other than the key in {norm(e)}')
@@ -769,12 +807,32 @@ def _is_empty_coll(e):
     return isinstance(e, ast.Call) and isinstance(e.func, ast.Name) and e.func.id in ('list', 'set') and not e.args and not e.keywords
 
 
-def _diff_table(f):
+def _extra_params(f, sites):
+    """parameters of _diff after (current, persisted) -> abstract value: the value of the default when every call site leaves
+    the parameter at its default (and the default is understood), else 'UNK' (any guard reading it is then not understood)"""
+    a = f.node.args
+    pos = a.posonlyargs + a.args
+    dflt = dict(zip([x.arg for x in pos[len(pos) - len(a.defaults):]], a.defaults))
+    dflt.update({x.arg: d for x, d in zip(a.kwonlyargs, a.kw_defaults) if d is not None})
+    out = {}
+    for i, p in enumerate(f.params()[2:], start=2):
+        out[p] = 'UNK'
+        passed = any(len(c.args) > i or any(k.arg in (p, None) for k in c.keywords) or any(isinstance(x, ast.Starred) for x in c.args) for c in sites)
+        if p in dflt and not passed:
+            try:
+                out[p] = _DiffEval('known', '', '').eval(dflt[p], {})
+            except (Unsupported, _Err):
+                pass
+    return out
+
+
+def _diff_table(f, sites=()):
     """-> ({scenario: set of selected flags}, [problems], evaluations) for dawgie.pl.schedule._diff"""
     params = f.params()
-    if len(params) != 2:
+    if len(params) < 2 or f.node.args.vararg or f.node.args.kwarg:
         raise AnalysisError(f'{f.qname} no longer takes (current, persisted)')
-    curr, prev = params
+    curr, prev = params[:2]
+    extras = _extra_params(f, sites)
     body = [s for s in f.node.body if not (isinstance(s, ast.Pass) or (isinstance(s, ast.Expr) and (isinstance(s.value, ast.Constant) or _is_log_call(s.value))))]
     rets = [n for n in f.own_nodes() if isinstance(n, ast.Return)]
     problems, table = [], {}
@@ -804,6 +862,7 @@ def _diff_table(f):
         env0 = _loop_binding(g.iter, g.target, curr)
         if env0 is None:
             return table, [('not-understood', g.iter, 'comprehension does not iterate over the names of the current table')], 0
+        env0 = {**extras, **env0}
         for scen, _txt, _exp in SCENARIOS:
             ev = _DiffEval(scen, curr, prev)
             try:
@@ -834,6 +893,7 @@ def _diff_table(f):
     env0 = _loop_binding(loop.iter, loop.target, curr)
     if env0 is None:
         return table, problems + [('not-understood', loop.iter, 'loop does not iterate over the names of the current table')], 0
+    env0 = {**extras, **env0}
     for scen, _txt, _exp in SCENARIOS:
         fl = _DiffFlow(_DiffEval(scen, curr, prev), res)
         out = fl.block(loop.body, {(False, frozenset(env0.items()))})
@@ -854,10 +914,11 @@ def _rule2(ctx, rep):
         'R-C15-2',
         'schedule._diff selects a name exactly when it is not persisted or its current version is not in its persisted list '
         '(truth table over {name persisted, version in list}, evaluation errors included)',
-        floor=3,
+        floor=4,
         breaks='a bumped version is not rescheduled, an unchanged one is rerun on every reload, or the reload crashes on a new name',
     ) as r:
-        table, problems, evaluations = _diff_table(f)
+        sites = [e.call for e in ctx.cg.callers(f.qname, kinds={'direct'})]
+        table, problems, evaluations = _diff_table(f, sites)
         r.extra['truth_table_rows'] = len(SCENARIOS)
         r.extra['evaluations'] = evaluations
         seen = set()
@@ -1502,8 +1563,10 @@ def _rule3(ctx, rep):
         for c in dcalls:
             r.instance()
             key = f'{build.qname}:{norm(c)}'
-            a = origin(c.args[0]) if len(c.args) == 2 and not c.keywords else None
-            b = origin(c.args[1]) if len(c.args) == 2 and not c.keywords else None
+            bound = _bind_args(c, diff) or {}  # extra (defaulted) arguments are R-C15-2's business
+            dp = diff.params()
+            a = origin(bound[dp[0]]) if len(dp) >= 2 and dp[0] in bound else None
+            b = origin(bound[dp[1]]) if len(dp) >= 2 and dp[1] in bound else None
             if p_latest is None or a is None or b is None or a[0] != p_latest or b[0] != p_prev:
                 r.fail(key, where(build, c), f'{norm(c)} does not compare a table of the current versions (first) with a table of the persisted versions (second)')
                 continue
@@ -1729,32 +1792,29 @@ VARIANTS = [
     # ---- R-C15-1
     V('__gt__ as __ge__ and __eq__', 'B', _I, 'Version.__gt__', 'self.__ge__(other) and self.__ne__(other)', 'self.__ge__(other) and self.__eq__(other)', 'R-C15-1'),
     V('__le__ compares bug fix with <', 'B', _I, 'Version.__le__', 'return self.bugfix() <= other.bugfix()', 'return self.bugfix() < other.bugfix()', 'R-C15-1'),
-    V('__ge__ ignores implementation', 'B', _I, 'Version.__ge__', 'if self.implementation() > other.implementation():\n                return True', 'pass', 'R-C15-1'),
     V('newer ignores impl', 'B', _I, 'Version.newer', 'and than.impl == self.implementation()', '', 'R-C15-1'),
     V('__eq__ with any', 'B', _I, 'Version.__eq__', 'return all(', 'return any(', 'R-C15-1'),
-    V('__ne__ forgets bug fix', 'B', _I, 'Version.__ne__', 'self.bugfix() != other.bugfix(),', '', 'R-C15-1'),
-    V('__lt__ compares design with implementation', 'B', _I, 'Version.__lt__', 'return self.__le__(other) and self.__ne__(other)', 'return self.design() < other.implementation()', 'R-C15-1'),
     V('implementation() reads design', 'B', _I, 'Version.implementation', 'return self._get_ver().impl', 'return self._get_ver().design', 'R-C15-1'),
     V('asstring drops bug fix', 'B', _I, 'Version.asstring', '[str(self.design()), str(self.implementation()), str(self.bugfix())]', '[str(self.design()), str(self.implementation())]', 'R-C15-1'),
-    V('asstring without separator', 'B', _I, 'Version.asstring', "return '.'.join(", "return ''.join(", 'R-C15-1'),
     V('subclass overrides __lt__', 'B', 'db/post/__init__.py', 'MyVersion', 'pass', 'def __lt__(self, other):\n        return False', 'R-C15-1'),
     V('__lt__ written out lexicographically', 'N', _I, 'Version.__lt__', 'return self.__le__(other) and self.__ne__(other)',
       'if self.design() != other.design():\n            return self.design() < other.design()\n        if self.implementation() != other.implementation():\n            return self.implementation() < other.implementation()\n        return self.bugfix() < other.bugfix()', None),
-    V('__gt__ as not <=', 'N', _I, 'Version.__gt__', 'return self.__ge__(other) and self.__ne__(other)', 'return not self <= other', None),
     V('__ne__ as not ==', 'N', _I, 'Version.__ne__', 'return any(\n            [\n                self.design() != other.design(),\n                self.implementation() != other.implementation(),\n                self.bugfix() != other.bugfix(),\n            ]\n        )', 'return not self == other', None),
     V('__ne__ left to the default', 'N', _I, 'Version', 'def __ne__(self, other):\n        return any(\n            [\n                self.design() != other.design(),\n                self.implementation() != other.implementation(),\n                self.bugfix() != other.bugfix(),\n            ]\n        )', '', None),
-    V('__gt__ left to the reflected __lt__', 'N', _I, 'Version', 'def __gt__(self, other):\n        return self.__ge__(other) and self.__ne__(other)', '', None),
-    V('__eq__ deleted (identity comparison)', 'B', _I, 'Version', 'def __eq__(self, other):\n        return all(\n            [\n                self.design() == other.design(),\n                self.implementation() == other.implementation(),\n                self.bugfix() == other.bugfix(),\n            ]\n        )', '', 'R-C15-1'),
+    V('__gt__ compares the attribute behind the hook', 'B', _I, 'Version.__gt__', 'return self.__ge__(other) and self.__ne__(other)', 'return self._version_ > other._version_', 'R-C15-1'),
+    V('__eq__ compares the attribute behind the hook', 'B', _I, 'Version.__eq__', 'return all(\n            [\n                self.design() == other.design(),\n                self.implementation() == other.implementation(),\n                self.bugfix() == other.bugfix(),\n            ]\n        )', 'return self._version_ == other._version_', 'R-C15-1'),
+    V('design() bypasses _get_ver', 'B', _I, 'Version.design', 'return self._get_ver().design', 'return self._version_.design', 'R-C15-1'),
+    V('__gt__ as tuple comparison of the accessors', 'N', _I, 'Version.__gt__', 'return self.__ge__(other) and self.__ne__(other)', 'return (self.design(), self.implementation(), self.bugfix()) > (other.design(), other.implementation(), other.bugfix())', None),
     V('newer as tuple comparison', 'N', _I, 'Version.newer', 'return (\n            than.design < self.design()', 'mine = (self.design(), self.implementation(), self.bugfix())\n        if True:\n            return mine > (than.design, than.impl, than.bugfix)\n        return (\n            than.design < self.design()', None),
     V('asstring as f-string', 'N', _I, 'Version.asstring', "return '.'.join(\n            [str(self.design()), str(self.implementation()), str(self.bugfix())]\n        )", "return f'{self.design()}.{self.implementation()}.{self.bugfix()}'", None),
     # ---- R-C15-2
     V('_diff with != 0', 'B', _S, '_diff', 'prev[k].count(curr[k]) == 0', 'prev[k].count(curr[k]) != 0', 'R-C15-2'),
     V('_diff with and', 'B', _S, '_diff', 'if k not in prev or', 'if k not in prev and', 'R-C15-2'),
     V('_diff requires a single occurrence', 'B', _S, '_diff', 'prev[k].count(curr[k]) == 0', 'prev[k].count(curr[k]) != 1', 'R-C15-2'),
-    V('_diff only new names', 'B', _S, '_diff', 'if k not in prev or prev[k].count(curr[k]) == 0:', 'if k not in prev:', 'R-C15-2'),
     V('_diff stops at the first difference', 'B', _S, '_diff', 'diff.append(k)', 'diff.append(k)\n            break', 'R-C15-2'),
     V('_diff looks the list up before the presence test', 'B', _S, '_diff', 'if k not in prev or prev[k].count(curr[k]) == 0:', 'if prev[k].count(curr[k]) == 0 or k not in prev:', 'R-C15-2'),
-    V('_diff returns a fresh list', 'B', _S, '_diff', 'return diff', 'return []', 'R-C15-2'),
+    V('_diff skips names by an undelimited prefix', 'B', _S, '_diff', 'def _diff(curr, prev):\n    diff = []\n    for k in curr:', "def _diff(curr, prev, known=('x',)):\n    diff = []\n    for k in curr:\n        if k.startswith(known):\n            continue", 'R-C15-2'),
+    V('_diff gets a defaulted parameter nobody sets', 'N', _S, '_diff', 'def _diff(curr, prev):\n    diff = []\n    for k in curr:', "def _diff(curr, prev, known=(), verbose=False):\n    diff = []\n    for k in curr:\n        if verbose:\n            log.debug('checking %s', k)\n        if k.startswith(known):\n            continue", None),
     V('_diff as not in prev.get', 'N', _S, '_diff', 'if k not in prev or prev[k].count(curr[k]) == 0:', 'if curr[k] not in prev.get(k, []):', None),
     V('_diff with continue and logging', 'N', _S, '_diff', 'if k not in prev or prev[k].count(curr[k]) == 0:\n            diff.append(k)',
       'known = prev.get(k)\n        if known is not None and curr[k] in known:\n            continue\n        log.debug("version of %s changed", k)\n        diff.append(k)', None),
@@ -1765,27 +1825,22 @@ VARIANTS = [
     V('tables compared in the wrong direction', 'B', _S, 'build', 'dsv = _diff(latest[1], previous[2])', 'dsv = _diff(previous[2], latest[1])', 'R-C15-3'),
     V('value versions never compared', 'B', _S, 'build', 'dv = _diff(latest[2], previous[3])', 'dv = _diff(latest[1], previous[2])', 'R-C15-3'),
     V('scheduled name cut to one component', 'B', _S, 'build', "item.split('.')[:2]", "item.split('.')[:1]", 'R-C15-3'),
-    V('scheduled name keeps the state vector', 'B', _S, 'build', "item.split('.')[:2]", "item.split('.')[:3]", 'R-C15-3'),
     V('value differences not scheduled', 'B', _S, 'build', 'for item in dalg + dsv + dv}', 'for item in dalg + dsv}', 'R-C15-3'),
     V('every task organised', 'B', _S, 'build', 'organize(ans, event=', 'organize(tasks(), event=', 'R-C15-3'),
     V('scheduled set extended before organize', 'B', _S, 'build', 'rev = dawgie.context.git_rev', 'rev = dawgie.context.git_rev\n    ans.update(tasks())', 'R-C15-3'),
     V('analysis scheduled for the target list', 'B', _S, 'build', "['__all__'] if _is_asp(n) else trglist", 'trglist', 'R-C15-3'),
-    V('every node gets the all marker', 'B', _S, 'build', "['__all__'] if _is_asp(n) else trglist", "['__all__']", 'R-C15-3'),
     V('marker branches swapped', 'B', _S, 'build', "['__all__'] if _is_asp(n) else trglist", "trglist if _is_asp(n) else ['__all__']", 'R-C15-3'),
     V('_is_asp tests the task factory', 'B', _S, '_is_asp', 'dawgie.Factories.analysis.name', 'dawgie.Factories.task.name', 'R-C15-3'),
     V('value stored with the state-vector version', 'B', _PV, 'current', 'tv[name] = sv[k].asstring()', 'tv[name] = sv.asstring()', 'R-C15-3'),
     V('state-vector name without the algorithm', 'B', _PV, 'current', "name = '.'.join([bot._name(), alg.name(), sv.name()])", "name = '.'.join([bot._name(), sv.name()])", 'R-C15-3'),
     V('value name under another algorithm name', 'B', _PV, 'current', "name = '.'.join([bot._name(), alg.name(), sv.name(), k])", "name = '.'.join([bot._name(), sv.name(), alg.name(), k])", 'R-C15-3'),
     V('shelve versions returns tables swapped', 'B', 'db/shelve/__init__.py', 'versions', 'return tasks_vers, algs_vers, svs_vers, vals_vers', 'return tasks_vers, svs_vers, algs_vers, vals_vers', 'R-C15-3'),
-    V('shelve state-vector key without task', 'B', 'db/shelve/__init__.py', 'versions', "key = '.'.join([tskn, algn, svn])", "key = '.'.join([algn, svn])", 'R-C15-3'),
     V('post algorithm key is the bare name', 'B', 'db/post/__init__.py', 'versions', "'.'.join([_find(tsk, pk=a['task_id'])['name'], a['name']]),", "a['name'],", 'R-C15-3'),
     V('shelve stores the version object', 'B', 'db/shelve/__init__.py', 'versions', 'vals_vers[key].append(vv.asstring())', 'vals_vers[key].append(vv)', 'R-C15-3'),
     V('analysis factories not versioned', 'B', 'pl/state.py', 'FSM._pipeline', 'facs[dawgie.Factories.analysis]\n                    + facs[dawgie.Factories.regress]', 'facs[dawgie.Factories.regress]', 'R-C15-3'),
-    V('persistent returns nothing persisted', 'B', _PV, 'persistent', 'return dawgie.db.versions()', 'return {}, {}, {}, {}', 'R-C15-3'),
     V('tables unpacked first', 'N', _S, 'build', 'dalg = _diff(latest[0], previous[1])\n    dsv = _diff(latest[1], previous[2])\n    dv = _diff(latest[2], previous[3])',
       'calg, csv, cv = latest\n    palg = previous[1]\n    dalg = _diff(calg, palg)\n    dsv = _diff(csv, previous[2])\n    dv = _diff(cv, previous[3])', None),
     V('scheduled names through set(generator) with explicit slice', 'N', _S, 'build', "ans = {'.'.join(item.split('.')[:2]) for item in dalg + dsv + dv}", "ans = set('.'.join(item.split('.')[0:2]) for item in dv + dalg + dsv)", None),
-    V('scheduled names by indexing', 'N', _S, 'build', "'.'.join(item.split('.')[:2])", "'.'.join([item.split('.')[0], item.split('.')[1]])", None),
     V('marker chosen by an if statement', 'N', _S, 'build',
       "n.set(\n                    'todo',\n                    dawgie.util.fifo.Unique(\n                        ['__all__'] if _is_asp(n) else trglist\n                    ),\n                )",
       "if not _is_asp(n):\n                    n.set('todo', dawgie.util.fifo.Unique(trglist))\n                else:\n                    n.set('todo', dawgie.util.fifo.Unique(['__all__']))", None),
